@@ -164,6 +164,13 @@ def drive(ex, op_next, op_holder, max_out):
                             extra={'output': [repr(x) for x in out[:12]]})
 
 
+def unflushed(ex):
+    """the operator under test has handed data (or a watermark) downstream since the last FlushBatch /
+    FlushAndRestart it returned (judged on the outputs collected by `drive`)"""
+    out = ex.env.get('last_output') or []
+    return bool(out) and getattr(out[-1], 'variant', None) in ('Item', 'Timestamped', 'Watermark')
+
+
 def check_grammar(ex, out, n_iters, what='output'):
     """`out` matches ((Item|Timestamped|Watermark|FlushBatch)* FlushAndRestart){n_iters} Terminate"""
     kinds = [e.variant for e in out]
